@@ -1586,7 +1586,7 @@ fn run_history(family: &'static str, index: u64, r: &mut Rng, named_beyond: bool
 /// 64, the vector backend's automatic packing threshold `holes * 10 > slots` reached by
 /// churn on a big table, long hole lists).
 fn run_history_large(family: &'static str, index: u64, r: &mut Rng) {
-    let prof = Profile { cap: *r.pick(&[70usize, 100, 150, 200]), named_beyond: false, churn: *r.pick(&[1.0, 3.0, 5.0]), len: r.range(250, 600) as usize };
+    let prof = Profile { cap: if r.chance(0.5) { *r.pick(&[70usize, 100, 150, 200]) } else { 40 + r.below(180) }, named_beyond: false, churn: *r.pick(&[1.0, 3.0, 5.0]), len: r.range(250, 600) as usize };
     run_history_with(family, index, r, prof, true)
 }
 
